@@ -4,14 +4,23 @@ log; each diff's result line is preceded by the name of its set) into evidence/b
 import json, re, sys, os, time
 rows = []
 for path in sys.argv[1:]:
+    cur = None
     for line in open(path, errors="replace"):
-        m = re.match(r"^(B\d\w*) (P\d)\.diff: baseline=(\S+) checks=\[([^\]]*)\] alarms:(.*)$", line.strip())
-        if m:
-            rows.append({"change": f"benign/{m.group(1)}/{m.group(2)}.diff", "baseline": m.group(3),
-                         "checks_run": m.group(4).split(), "alarms": m.group(5).strip()})
+        line = line.strip()
+        for tok in line.split():
+            if re.fullmatch(r"B\d\w*", tok):
+                cur = tok  # each diff's output starts with the name of its set
+            else:
+                break
+        m = re.search(r"(P\d)\.diff: baseline=(\S+)(?: checks=\[([^\]]*)\])? alarms:(.*)$", line)
+        if m and cur:
+            checks = m.group(3).split() if m.group(3) else "C06 C07 C10 C12 C13 C14 C15 C16 C18 C19".split()
+            rows.append({"change": f"benign/{cur}/{m.group(1)}.diff", "baseline": m.group(2),
+                         "checks_run": checks, "alarms": m.group(4).strip()})
 rows.sort(key=lambda r: r["change"])
 out = {"generated": time.strftime("%Y-%m-%dT%H:%M:%SZ", time.gmtime()),
        "what": "tools/benign.sh on every change of benign/ (quick tier of every check whose binary contains a touched package)",
-       "changes": len(rows), "with_alarm": [r for r in rows if r["alarms"] != "none"], "results": rows}
+       "changes": len(rows), "with_alarm": [r for r in rows if "exit1" in r["alarms"]],
+       "inconclusive": [r for r in rows if "exit2" in r["alarms"]], "results": rows}
 json.dump(out, open(os.path.join(os.path.dirname(__file__), "..", "evidence", "benign.json"), "w"), indent=1)
-print(f"{len(rows)} changes, {len(out['with_alarm'])} with an alarm")
+print(f"{len(rows)} changes, {len(out['with_alarm'])} with an alarm, {len(out['inconclusive'])} inconclusive (exit 2)")
